@@ -14,7 +14,7 @@ EXPLANATION = ("C02: exhaustive check of the aio provider protocol (result of nn
                " Also: the expiry scan accounts for every entry it walks past (E1), and whoever takes the head off a head-gated request queue starts the next transfer (S3).")
 EXPLANATION += ' Round 3: the absolute-expiry flag is updated together with the timeout / deadline it qualifies (T1).'
 EXPLANATION += " Round 5: the byte-stream connections and the platform's queues park nothing after their close has drained them (P1 = C10.R11 for src/platform and src/supplemental)."
-EXPLANATION += " Round 8: a caller's aio is cleared (nni_aio_reset) on every way from a public entry point to the nni_aio_start of a provider (A15); the one-shot absolute expiry is forgotten wherever the framework ends an operation (T3)."
+EXPLANATION += " Round 8: a caller's aio is cleared (nni_aio_reset) on every way from a public entry point to the nni_aio_start of a provider (A15); the one-shot absolute expiry is forgotten wherever the framework ends an operation (T3); a cancel function of a head-served queue aborts the lower operation only for the operation being served or when nobody waits (A16)."
 EXPLANATION += " Round 6: a one-place park field is not overwritten while occupied (A12); an operation unlinked from its wait list is completed, queued again or handed on (A13); the mark a cancel function tests stays on the operation until it completes without a blocking step in between (A14); a busy latch is released by the completion it waits for (S4); 'served in the same critical section' requires the drain under a closed mark (P1)."
 ASSUMPTIONS = ["interleaving-level behaviour of the expire thread and of user code is not decided"]
 
@@ -1864,6 +1864,81 @@ def rule_t3(ctx):
         raise AnalysisBroken("nni_aio_start has no refusing return")
 
 
+# ---------------------------------------------------------------------------
+# A16: cancelling one queued operation does not end the one being served
+
+
+def rule_a16(ctx):
+    r = ctx.rule("C02.A16", "T6", "one final result per operation, not somebody else's: where a provider queues callers' operations "
+                 "behind a single lower operation that serves the head of the queue (append to the list; start the lower operation "
+                 "if this one is first), its cancel function aborts the lower operation only on a path that has found the "
+                 "cancelled operation to be the one being served (first of the list / the recorded current one) or the queue "
+                 "empty after removing it -- an unconditional abort fails the head of the queue with the result code of the "
+                 "operation that was cancelled or timed out behind it", floor=2)
+    r.own_opinion = True
+    from .. import guards as G
+    prog = ctx.prog
+    n = 0
+    for f in prog.functions:
+        if f.cfg_failed or f.normalized:
+            continue
+        for s in f.calls("nni_aio_start"):
+            a = s.node["args"]
+            if len(a) < 2:
+                continue
+            k = f.expand(a[1])
+            while k is not None and k.get("k") in ("un", "cast"):
+                k = k.get("e")
+            an = f.expand(a[0])
+            if k is None or k.get("k") != "fnref" or an is None or an.get("k") != "var":
+                continue
+            # the queue idiom: `if (nni_list_first(&o->L) == aio) start`
+            lists = set()
+            for bid, kk, atom, val in G.edge_facts(f):
+                if atom.get("k") == "bin" and atom.get("op") in ("==", "!="):
+                    for x, y in ((atom["lhs"], atom["rhs"]), (atom["rhs"], atom["lhs"])):
+                        if x.get("k") == "call" and x.get("fn") == "nni_list_first" and y.get("k") == "var" and y["n"] == an["n"]:
+                            fld = last_field(f.expand(x["args"][0]))
+                            if fld:
+                                lists.add(fld)
+            if not lists:
+                continue
+            K = prog.resolve(f, k["n"])
+            if K is None or K.cfg_failed or not K.params:
+                continue
+            cn = K.params[0]["n"]
+            aborts = [c for c in K.calls(("nni_aio_abort", "nni_aio_close")) if c.node["args"] and any(
+                m.get("k") == "mem" for m in walk(K.expand(c.node["args"][0]) or {}))]
+            if not aborts:
+                continue
+            ok_edges = {}
+            for bid, kk, atom, val in G.edge_facts(K):
+                txt = atom
+                if atom.get("k") == "bin" and atom.get("op") in ("==", "!="):
+                    sides = (atom["lhs"], atom["rhs"])
+                    if any(x.get("k") == "var" and x["n"] == cn for x in sides) and any(x.get("k") != "var" or x["n"] != cn for x in sides):
+                        other = [x for x in sides if not (x.get("k") == "var" and x["n"] == cn)][0]
+                        if (other.get("k") == "call" and other.get("fn") == "nni_list_first") or other.get("k") == "mem":
+                            if (atom["op"] == "==") == bool(val):
+                                ok_edges[bid] = kk
+                if atom.get("k") == "call" and atom.get("fn") == "nni_list_empty" and val:
+                    ok_edges[bid] = kk
+            for c in aborts:
+                n += 1
+                what = "%s (cancel function of %s): %s(%s) at line %s" % (K.name, f.name, c.node["fn"], show(K.expand(c.node["args"][0])), c.line)
+                # reachable without crossing one of the establishing edges?
+                seen = K.reach((K.entry, 0), edge_ok=lambda b, kk: not (b in ok_edges and ok_edges[b] == kk))
+                if (c.b, c.i) in seen:
+                    ctx.fail(r, K, "lower operation aborted for any cancelled waiter", c.line,
+                             "%s aborts the operation that serves the head of %s (line %s) without having found the cancelled "
+                             "operation first in line or the queue empty: the operation being served fails with the result code "
+                             "of another one" % (K.name, "/".join(sorted(lists)), c.line))
+                else:
+                    r.ob(K, what + " only for the operation being served / when nobody waits")
+    if n < 2:
+        raise AnalysisBroken("only %d cancel functions of head-served queues abort a lower operation" % n)
+
+
 def run(ctx):   # noqa: F811
     ctx.guard(rule_a1)
     ctx.guard(rule_a2)
@@ -1888,3 +1963,4 @@ def run(ctx):   # noqa: F811
     ctx.guard(rule_s4)
     ctx.guard(rule_a15)
     ctx.guard(rule_t3)
+    ctx.guard(rule_a16)
